@@ -74,64 +74,79 @@ func lookupTable(c *Ctx) {
 		{"an unknown name", nil, true, nil},
 	}
 	for _, tc := range cases {
-		m := interp.New(prog)
-		tmpl.InstallTypesModels(m, prog)
-		errModels(m)
-		m.Ext["go/types.IsInterface"] = func(m *interp.Machine, p token.Pos, recv interp.Value, args []interp.Value) (interp.Value, error) {
-			if o, ok := args[0].(*interp.Opaque); ok {
-				if v, ok := o.Attrs["isInterface"]; ok {
-					return v, nil
-				}
-			}
-			return &interp.Unknown{Why: "types.IsInterface"}, nil
-		}
-		m.Ext["go/types.Unalias"] = func(m *interp.Machine, p token.Pos, recv interp.Value, args []interp.Value) (interp.Value, error) {
-			if o, ok := args[0].(*interp.Opaque); ok {
-				if v, ok := o.Attrs["unalias"]; ok {
-					return v, nil
-				}
-				return o, nil
-			}
-			return &interp.Unknown{Why: "types.Unalias"}, nil
-		}
-		var obj interp.Value = interp.NilV{}
-		if tc.typ != nil {
-			obj = &interp.Opaque{Kind: "types.Object", ID: "obj", GoType: "*go/types.TypeName", Methods: mmap{"Type": tmeth(tc.typ), "Name": tmeth(interp.Lit("X"))}}
-		}
-		scope := &interp.Opaque{Kind: "types.Scope", ID: "scope", GoType: "*go/types.Scope", Methods: mmap{"Lookup": tmeth(obj)}}
-		pkg := &interp.Opaque{Kind: "types.Package", ID: "src", GoType: "*go/types.Package", Methods: mmap{"Scope": tmeth(scope)}, Attrs: map[string]interp.Value{"path": interp.Lit("example.test/src"), "name": interp.Lit("src")}}
-		rt := prog.ByPath[load.PkgRegistry].Types.Scope().Lookup("Registry")
-		reg := m.Zero(rt.Type()).(*interp.Struct)
-		reg.Fields["srcPkgTypes"] = pkg
-		got, err := m.CallFunc(token.NoPos, fn, reg, []interp.Value{interp.Tok("ƗX")})
-		if err != nil {
-			p := pos
-			if u, ok := err.(*interp.ErrUndecided); ok && u.Pos.IsValid() {
-				p = prog.Pos(u.Pos)
-			}
-			run.Undecided("G-LOOKUP/table", tc.desc, p, "LookupInterface cannot be evaluated for "+tc.desc+": "+err.Error())
-			continue
-		}
-		tup, _ := got.(interp.Tuple)
-		ok := len(tup) == 3
-		detail := interp.Show(got)
-		if ok {
-			_, errNil := tup[2].(interp.NilV)
-			if tc.wantErr {
-				ok = !errNil
-			} else {
-				ok = errNil && tup[0] == interp.Value(iface)
-				if ok {
-					if want, isNil := tc.wantParam.(interp.NilV); isNil {
-						_, gotNil := tup[1].(interp.NilV)
-						ok = gotNil
-						_ = want
-					} else {
-						ok = tup[1] == tc.wantParam
+		vals, errs := allPaths(prog, func(m *interp.Machine) (interp.Value, error) {
+			tmpl.InstallTypesModels(m, prog)
+			errModels(m)
+			m.Ext["go/types.IsInterface"] = func(m *interp.Machine, p token.Pos, recv interp.Value, args []interp.Value) (interp.Value, error) {
+				if o, ok := args[0].(*interp.Opaque); ok {
+					if v, ok := o.Attrs["isInterface"]; ok {
+						return v, nil
 					}
 				}
+				return &interp.Unknown{Why: "types.IsInterface"}, nil
 			}
-			detail = fmt.Sprintf("(iface=%s, tparams=%s, err=%s)", interp.Show(tup[0]), interp.Show(tup[1]), interp.Show(tup[2]))
+			m.Ext["go/types.Unalias"] = func(m *interp.Machine, p token.Pos, recv interp.Value, args []interp.Value) (interp.Value, error) {
+				if o, ok := args[0].(*interp.Opaque); ok {
+					if v, ok := o.Attrs["unalias"]; ok {
+						return v, nil
+					}
+					return o, nil
+				}
+				return &interp.Unknown{Why: "types.Unalias"}, nil
+			}
+			var obj interp.Value = interp.NilV{}
+			if tc.typ != nil {
+				obj = &interp.Opaque{Kind: "types.Object", ID: "obj", GoType: "*go/types.TypeName", Methods: mmap{"Type": tmeth(tc.typ), "Name": tmeth(interp.Lit("X"))}}
+			}
+			scope := &interp.Opaque{Kind: "types.Scope", ID: "scope", GoType: "*go/types.Scope", Methods: mmap{"Lookup": tmeth(obj)}}
+			pkg := &interp.Opaque{Kind: "types.Package", ID: "src", GoType: "*go/types.Package", Methods: mmap{"Scope": tmeth(scope)}, Attrs: map[string]interp.Value{"path": interp.Lit("example.test/src"), "name": interp.Lit("src")}}
+			rt := prog.ByPath[load.PkgRegistry].Types.Scope().Lookup("Registry")
+			reg := m.Zero(rt.Type()).(*interp.Struct)
+			reg.Fields["srcPkgTypes"] = pkg
+			return m.CallFunc(token.NoPos, fn, reg, []interp.Value{interp.Tok("ƗX")})
+		})
+		ok := true
+		detail := ""
+		undecided := false
+		for pi, got := range vals {
+			if err := errs[pi]; err != nil {
+				p := pos
+				if u, isU := err.(*interp.ErrUndecided); isU && u.Pos.IsValid() {
+					p = prog.Pos(u.Pos)
+				}
+				run.Undecided("G-LOOKUP/table", tc.desc, p, "LookupInterface cannot be evaluated for "+tc.desc+": "+err.Error())
+				undecided = true
+				break
+			}
+			tup, _ := got.(interp.Tuple)
+			okp := len(tup) == 3
+			d := interp.Show(got)
+			if okp {
+				_, errNil := tup[2].(interp.NilV)
+				if tc.wantErr {
+					okp = !errNil
+				} else {
+					okp = errNil && tup[0] == interp.Value(iface)
+					if okp {
+						if _, isNil := tc.wantParam.(interp.NilV); isNil {
+							_, gotNil := tup[1].(interp.NilV)
+							okp = gotNil
+						} else {
+							okp = tup[1] == tc.wantParam
+						}
+					}
+				}
+				d = fmt.Sprintf("(iface=%s, tparams=%s, err=%s)", interp.Show(tup[0]), interp.Show(tup[1]), interp.Show(tup[2]))
+			}
+			if !okp {
+				ok = false
+				detail = d
+			} else if detail == "" {
+				detail = d
+			}
+		}
+		if undecided {
+			continue
 		}
 		want := "an error naming the type"
 		if !tc.wantErr {
@@ -201,33 +216,48 @@ func representativeTable(c *Ctx) {
 		{"interface{ Stringer; ~int64 | ~string }", ifaceWith("mixed", stringer, union("u2", i64)), []interp.Value{i64}},
 	}
 	for _, tc := range cases {
-		m := interp.New(prog)
-		tmpl.InstallTypesModels(m, prog)
-		errModels(m)
 		vr := &interp.Opaque{Kind: "types.Var", ID: "tp", GoType: "*go/types.Var", Attrs: map[string]interp.Value{"type": tc.cons, "name": interp.Tok("Ƭ")}}
-		// the constraint is reached as typeParam.Type().Underlying()
-		got, err := m.CallFunc(token.NoPos, fn, nil, []interp.Value{vr})
-		if err != nil {
-			p := pos
-			if u, ok := err.(*interp.ErrUndecided); ok && u.Pos.IsValid() {
-				p = prog.Pos(u.Pos)
+		vals, errs := allPaths(prog, func(m *interp.Machine) (interp.Value, error) {
+			tmpl.InstallTypesModels(m, prog)
+			errModels(m)
+			return m.CallFunc(token.NoPos, fn, nil, []interp.Value{vr})
+		})
+		ok := true
+		var got interp.Value
+		undecided := false
+		for pi, g := range vals {
+			if err := errs[pi]; err != nil {
+				p := pos
+				if u, isU := err.(*interp.ErrUndecided); isU && u.Pos.IsValid() {
+					p = prog.Pos(u.Pos)
+				}
+				run.Undecided("G-REPR/table", tc.desc, p, "the representative type for constraint "+tc.desc+" cannot be evaluated on every path: "+err.Error())
+				undecided = true
+				break
 			}
-			run.Undecided("G-REPR/table", tc.desc, p, "the representative type for constraint "+tc.desc+" cannot be evaluated: "+err.Error())
-			continue
-		}
-		if got == nil {
-			got = interp.NilV{}
-		}
-		ok := false
-		for _, a := range tc.allow {
-			if got == a {
-				ok = true
+			if g == nil {
+				g = interp.NilV{}
 			}
-			if _, isNil := a.(interp.NilV); isNil {
-				if _, gotNil := got.(interp.NilV); gotNil {
-					ok = true
+			okp := false
+			for _, a := range tc.allow {
+				if g == a {
+					okp = true
+				}
+				if _, isNil := a.(interp.NilV); isNil {
+					if _, gotNil := g.(interp.NilV); gotNil {
+						okp = true
+					}
 				}
 			}
+			if !okp {
+				ok = false
+				got = g
+			} else if got == nil {
+				got = g
+			}
+		}
+		if undecided {
+			continue
 		}
 		run.Check("G-REPR/table", tc.desc, pos, ok, fmt.Sprintf("for the constraint %s the representative type argument is %s; it must be a member the constraint itself lists (its embedded basic type or the first term of its union) or absent — any other type need not satisfy the constraint and the self-check line would not compile", tc.desc, interp.Show(got)))
 	}
@@ -264,6 +294,9 @@ func parseTable(c *Ctx) {
 	for _, tc := range cases {
 		m := interp.New(prog)
 		got, err := m.CallFunc(token.NoPos, fn, nil, []interp.Value{tc.in})
+		if err == nil && m.Choices.Forked() {
+			err = fmt.Errorf("the parse depends on something the symbolic argument does not fix (%s)", m.Choices.Describe())
+		}
 		if err != nil {
 			run.Undecided("G-PARSE/table", tc.desc, pos, "parseInterfaceName cannot be evaluated: "+err.Error())
 			continue
@@ -283,4 +316,27 @@ func parseTable(c *Ctx) {
 		run.Check("G-PARSE/table", tc.desc, pos, ok, fmt.Sprintf("the argument %q is parsed as interface %q, mock %q; want %q and %q (the mock is named <Interface>Mock, or exactly what follows the first colon)", tc.in.Flat(), gi, gm, tc.iface, tc.mock))
 	}
 	run.Floor("G-PARSE/table", 3)
+}
+
+// allPaths evaluates f once per combination of unknown conditions met on the
+// way (a table function may decide on something the abstract value does not
+// fix; every outcome must then satisfy the table).
+func allPaths(prog *load.Program, f func(m *interp.Machine) (interp.Value, error)) (vals []interp.Value, errs []error) {
+	choices := interp.NewChoices(64)
+	for {
+		m := interp.New(prog)
+		m.Choices = choices
+		v, err := f(m)
+		vals = append(vals, v)
+		errs = append(errs, err)
+		more, overflow := choices.Advance()
+		if overflow {
+			errs = append(errs, fmt.Errorf("more than 64 combinations of input-dependent conditions"))
+			vals = append(vals, nil)
+			return
+		}
+		if !more {
+			return
+		}
+	}
 }
